@@ -15,11 +15,12 @@ from .common import Result, Batch
 
 ID = 'C11'
 FUNCTIONS = ['utils.matrix_iter', 'utils.matrix_iter_verbose', 'utils.matrix_iter_verbose.get_bit', 'utils.check_valid_scale', 'utils.check_valid_border',
-             'utils.get_border', 'utils.get_default_border_size', 'writers._make_colormap']
+             'utils.get_border', 'utils.get_default_border_size', 'writers._make_colormap', 'writers.write_png', 'writers.write_ppm', 'writers.write_svg']
 EXPLANATION = ('matrix_iter_verbose / matrix_iter executed on symbols with free format / version / data modules; each yielded cell (an '
                'if-then-else over one module bit) is compared by z3 with the ISO type of its position in the dark / light variant; row and '
                'column counts, scale repetition, quiet zone; border / scale validation over symbolic numbers; _make_colormap with symbolic '
-               'choice of which of the 15 options are given.')
+               'choice of which of the 15 options are given. Colourful PNG / PPM / SVG: the C09 / C10 harnesses (symbolic module values for '
+               'PNG / PPM; real symbol with symbolic border for SVG) compare every pixel / stroke with the colour configured for the ISO type.')
 BOUNDS = {'quick': 'all 44 sizes x border in {0, default} x scale 1; sizes <= 25 also border 1 and scale 2, 3; all module values symbolic',
           'thorough': 'all 44 sizes x border {0, 1, default} x scale {1, 2, 3}'}
 OUTSIDE = 'positions are enumerated by the real loops (the classifier is a closure over the generator frame); scale > 3'
@@ -42,6 +43,13 @@ def jobs(tier, seed):
         if tier == 'thorough' or n <= 25:
             cfgs += [(1, 1), (0, 2), (None, 3), (1, 2)]
         out.append({'name': f'iter:{T.version_name(v)}', 'kind': 'iter', 'v': v, 'cfgs': cfgs, 'cost': len(cfgs) * n * n / 100})
+    # last sentence of the statement (colourful PNG / PPM / SVG paint each module in the colour of its type): the harnesses of
+    # C09 (pixel == colour of the ISO type of the module under it) and C10 (SVG strokes) are run here as well
+    from . import c09
+    for sp in c09.jobs(tier, seed):
+        if str(sp.get('fmt', '')).endswith('-colorful'):
+            out.append({'name': 'colourful:' + sp['name'], 'kind': 'delegate', 'to': 'c09', 'spec': sp, 'cost': sp.get('cost', 40)})
+    out.append({'name': 'colourful:svg', 'kind': 'delegate', 'to': 'c10', 'spec': {'name': 'b:svg:colorful', 'kind': 'svgcolorful', 'cost': 30}, 'cost': 30})
     return out
 
 
@@ -73,6 +81,11 @@ def type_codes(consts):
 
 
 def run_job(spec):
+    if spec['kind'] == 'delegate':
+        import importlib
+        d = importlib.import_module('props.' + spec['to']).run_job(spec['spec'])
+        d['name'] = spec['name']
+        return d
     res = Result(spec['name'])
     L_ = common.sx()
     if spec['kind'] == 'valid':
@@ -279,6 +292,12 @@ def replay(viol):
     from segno import utils, consts, writers
     inp = viol['input']
     fn = inp.get('fn')
+    if str(inp.get('fmt', '')).endswith('-colorful'):
+        from . import c09
+        return c09.replay(viol)
+    if fn == 'colorful':
+        from . import c10
+        return c10.replay(viol)
     if fn == 'valid':
         from fractions import Fraction
         val = Fraction(inp['value'].replace('?', ''))
